@@ -152,3 +152,209 @@ fn k_publish_layout() {
     }
     kani::cover!(q == 2 && dup);
 }
+
+fn mk_prop(kind: u8, a: u8, b: u16, c: u32) -> crate::properties::Property<'static> {
+    use crate::properties::Property;
+    match kind {
+        0 => Property::PayloadFormatIndicator(a),
+        1 => Property::MessageExpiryInterval(c),
+        2 => Property::ContentType("ty"),
+        3 => Property::ResponseTopic("r"),
+        4 => Property::CorrelationData(&[1, 2]),
+        5 => Property::SubscriptionIdentifier(c),
+        6 => Property::SessionExpiryInterval(c),
+        7 => Property::AssignedClientIdentifier("c"),
+        8 => Property::ServerKeepAlive(b),
+        9 => Property::AuthenticationMethod("m"),
+        10 => Property::AuthenticationData(&[3]),
+        11 => Property::RequestProblemInformation(a),
+        12 => Property::WillDelayInterval(c),
+        13 => Property::RequestResponseInformation(a),
+        14 => Property::ResponseInformation("i"),
+        15 => Property::ServerReference("s"),
+        16 => Property::ReasonString(""),
+        17 => Property::ReceiveMaximum(b),
+        18 => Property::TopicAliasMaximum(b),
+        19 => Property::TopicAlias(b),
+        20 => Property::MaximumQoS(a),
+        21 => Property::RetainAvailable(a),
+        22 => Property::UserProperty("k", "vv"),
+        23 => Property::MaximumPacketSize(c),
+        24 => Property::WildcardSubscriptionAvailable(a),
+        25 => Property::SubscriptionIdentifierAvailable(a),
+        _ => Property::SharedSubscriptionAvailable(a),
+    }
+}
+
+/// (identifier, payload length) of each kind as built by `mk_prop` (MQTT 5.0 section 2.2.2.2: the data
+/// type of each property; UTF-8 strings and binary data carry a two-byte length prefix)
+fn oracle_prop(kind: u8, c: u32) -> (u8, usize) {
+    let vlen = if c < 128 { 1 } else if c < 16_384 { 2 } else if c < 2_097_152 { 3 } else { 4 };
+    match kind {
+        0 => (0x01, 1),
+        1 => (0x02, 4),
+        2 => (0x03, 2 + 2),
+        3 => (0x08, 2 + 1),
+        4 => (0x09, 2 + 2),
+        5 => (0x0B, vlen),
+        6 => (0x11, 4),
+        7 => (0x12, 2 + 1),
+        8 => (0x13, 2),
+        9 => (0x15, 2 + 1),
+        10 => (0x16, 2 + 1),
+        11 => (0x17, 1),
+        12 => (0x18, 4),
+        13 => (0x19, 1),
+        14 => (0x1A, 2 + 1),
+        15 => (0x1C, 2 + 1),
+        16 => (0x1F, 2),
+        17 => (0x21, 2),
+        18 => (0x22, 2),
+        19 => (0x23, 2),
+        20 => (0x24, 1),
+        21 => (0x25, 1),
+        22 => (0x26, 2 + 1 + 2 + 2),
+        23 => (0x27, 4),
+        24 => (0x28, 1),
+        25 => (0x29, 1),
+        _ => (0x2A, 1),
+    }
+}
+
+/// C09 "Property::size must equal the bytes Property::serialize emits": a DISCONNECT carrying ONE
+/// property of every kind (numeric values symbolic over their whole domain, strings fixed and short):
+/// the declared property-block length, the remaining length and the bytes actually written agree, and
+/// the block starts with the kind's identifier.
+fn property_block_size(kind: u8) {
+    let a: u8 = kani::any();
+    let b: u16 = kani::any();
+    let c: u32 = kani::any();
+    kani::assume(kind != 5 || c <= 268_435_455);
+    let props = [mk_prop(kind, a, b, c)];
+    let mut storage = [0u8; 32];
+    let packet = Disconnect::success().with_properties(&props);
+    let r = MqttSerializer::encode(&mut storage, &packet);
+    assert!(r.is_ok());
+    let p = r.unwrap();
+    let (id, plen) = oracle_prop(kind, c);
+    // fixed header, remaining length, reason code, property length, identifier
+    assert!(p[0] == 0xE0);
+    assert!(p[1] as usize == 1 + 1 + 1 + plen, "remaining length");
+    assert!(p[2] == 0x00);
+    assert!(p[3] as usize == 1 + plen, "declared property-block length != bytes emitted");
+    assert!(p[4] == id, "property identifier");
+    assert!(p.len() == 2 + 1 + 1 + 1 + plen, "bytes written");
+    assert!(props[0].size() == 1 + plen, "Property::size");
+}
+
+/// numeric kinds other than the Subscription Identifier
+#[cfg_attr(kani, kani::proof)]
+#[cfg_attr(kani, kani::unwind(12))]
+#[cfg_attr(verif_replay, test)]
+fn k_property_block_numeric() {
+    let i: u8 = kani::any();
+    const KINDS: [u8; 17] = [0, 1, 6, 8, 11, 12, 13, 17, 18, 19, 20, 21, 23, 24, 25, 26, 26];
+    kani::assume(i < 16);
+    property_block_size(KINDS[i as usize]);
+    kani::cover!(i == 15);
+}
+
+/// Subscription Identifier: variable byte integer over its whole domain (all four widths)
+#[cfg_attr(kani, kani::proof)]
+#[cfg_attr(kani, kani::unwind(12))]
+#[cfg_attr(verif_replay, test)]
+fn k_property_block_subscription_id() {
+    property_block_size(5);
+    kani::cover!(true);
+}
+
+/// string / binary / pair kinds (fixed short contents)
+#[cfg_attr(kani, kani::proof)]
+#[cfg_attr(kani, kani::unwind(12))]
+#[cfg_attr(verif_replay, test)]
+fn k_property_block_strings() {
+    let i: u8 = kani::any();
+    const KINDS: [u8; 10] = [2, 3, 4, 7, 9, 10, 14, 15, 16, 22];
+    kani::assume(i < 10);
+    property_block_size(KINDS[i as usize]);
+    kani::cover!(i == 9);
+}
+
+/// C09 CONNECT: flag byte from clean start / will (QoS, retain) / credentials, keep-alive big-endian,
+/// protocol name and level, for every combination
+fn connect_layout(has_will: bool, has_auth: bool) {
+    use crate::packets::Connect;
+    use crate::types::Auth;
+    use crate::will::Will;
+    let keepalive: u16 = kani::any();
+    let clean_start: bool = kani::any();
+    let wq: u8 = kani::any();
+    kani::assume(wq < 3);
+    let wr: bool = kani::any();
+    let will = if has_will {
+        let w = Will::new("w", &[9], &[]).unwrap();
+        let w = w.qos(match wq { 0 => QoS::AtMostOnce, 1 => QoS::AtLeastOnce, _ => QoS::ExactlyOnce });
+        Some(if wr { w.retained() } else { w })
+    } else {
+        None
+    };
+    let packet = Connect {
+        keepalive,
+        properties: Properties::from_slice(&[]),
+        client_id: Utf8String("c"),
+        auth: if has_auth { Some(Auth::new("u", &[7])) } else { None },
+        will,
+        clean_start,
+    };
+    let mut storage = [0u8; 48];
+    let r = MqttSerializer::encode(&mut storage, &packet);
+    assert!(r.is_ok());
+    let p = r.unwrap();
+    let want_flags = ((clean_start as u8) << 1)
+        | if has_will { (1 << 2) | (wq << 3) | ((wr as u8) << 5) } else { 0 }
+        | if has_auth { 0xC0 } else { 0 };
+    let body = 10 + 1 + 3 + if has_will { 1 + 3 + 3 } else { 0 } + if has_auth { 3 + 3 } else { 0 };
+    assert!(p[0] == 0x10 && p[1] as usize == body && p.len() == 2 + body);
+    assert!(p[2] == 0 && p[3] == 4 && p[4] == b'M' && p[5] == b'Q' && p[6] == b'T' && p[7] == b'T' && p[8] == 5);
+    assert!(p[9] == want_flags, "CONNECT flags");
+    assert!(p[10] == (keepalive >> 8) as u8 && p[11] == keepalive as u8, "keep-alive");
+    assert!(p[12] == 0, "empty property block");
+    assert!(p[13] == 0 && p[14] == 1 && p[15] == b'c', "client id");
+    if has_will {
+        // will properties (empty), topic "w", payload [9]
+        assert!(p[16] == 0 && p[17] == 0 && p[18] == 1 && p[19] == b'w' && p[20] == 0 && p[21] == 1 && p[22] == 9);
+    }
+    if has_auth {
+        let o = if has_will { 23 } else { 16 };
+        assert!(p[o] == 0 && p[o + 1] == 1 && p[o + 2] == b'u' && p[o + 3] == 0 && p[o + 4] == 1 && p[o + 5] == 7);
+    }
+    kani::cover!(wq == 2 && wr);
+}
+
+#[cfg_attr(kani, kani::proof)]
+#[cfg_attr(kani, kani::unwind(12))]
+#[cfg_attr(verif_replay, test)]
+fn k_connect_plain() {
+    connect_layout(false, false);
+}
+
+#[cfg_attr(kani, kani::proof)]
+#[cfg_attr(kani, kani::unwind(12))]
+#[cfg_attr(verif_replay, test)]
+fn k_connect_will() {
+    connect_layout(true, false);
+}
+
+#[cfg_attr(kani, kani::proof)]
+#[cfg_attr(kani, kani::unwind(12))]
+#[cfg_attr(verif_replay, test)]
+fn k_connect_auth() {
+    connect_layout(false, true);
+}
+
+#[cfg_attr(kani, kani::proof)]
+#[cfg_attr(kani, kani::unwind(12))]
+#[cfg_attr(verif_replay, test)]
+fn k_connect_will_auth() {
+    connect_layout(true, true);
+}
